@@ -50,6 +50,8 @@ func (o COp) String() string {
 		return fmt.Sprintf("c%d:rename(%s,%s)", o.Cl, o.A, o.B)
 	case "hwrite":
 		return fmt.Sprintf("c%d:write(%d bytes)", o.Cl, len(o.Data))
+	case "excl":
+		return fmt.Sprintf("c%d:openfile(%s,CREATE|EXCL)+close", o.Cl, o.A)
 	case "logwrite":
 		return fmt.Sprintf("c%d:sharedhandle.write(%q)", o.Cl, o.Data)
 	case "logclose":
@@ -215,6 +217,18 @@ func concStep(st *cState, in COp, out COut) (bool, *cState) {
 		mo = ns.M.Chown(in.A, in.Uid, in.Gid)
 	case "chtimes":
 		mo = ns.M.Chtimes(in.A, in.T, in.T)
+	case "excl":
+		// lock-file idiom: OpenFile(O_CREATE|O_EXCL) + Close; exactly one of any number of concurrent callers may win
+		if o, pok := ns.M.parentOK(in.A); !pok {
+			mo = o
+			break
+		}
+		if _, exists := ns.M.N[in.A]; exists {
+			mo = fail("exists")
+			break
+		}
+		ns.M.N[in.A] = &MNode{Perm: 0o644, Data: []byte{}}
+		mo = ok()
 	case "create":
 		if o, pok := ns.M.parentOK(in.A); !pok {
 			mo = o
@@ -326,6 +340,7 @@ var concModel = porcupine.Model{
 
 var stableDirs = []string{"/s1", "/s2"}
 var stableFiles = []string{"/s1/alpha", "/s1/beta", "/s2/gamma"}
+var lockNames = []string{"/s1/lock", "/s2/lock", "/lock%"}
 var volatileNames = []string{"/v_", "/v%", "/va", "/vab", "/s1/v_", "/s2/va"}
 
 func genPrograms(r interface{ Intn(int) int }, p concP) [][]COp {
@@ -337,6 +352,16 @@ func genPrograms(r interface{ Intn(int) int }, p concP) [][]COp {
 		for len(ops) < p.PerCl {
 			if p.Log && r.Intn(3) == 0 {
 				ops = append(ops, COp{K: "logwrite", Data: fmt.Sprintf("<c%d-%02d>", c, len(ops)), Cl: c})
+				continue
+			}
+			if r.Intn(7) == 0 {
+				// lock files: exclusive creation of a shared name, and its removal
+				ln := lockNames[r.Intn(len(lockNames))]
+				if r.Intn(3) == 0 {
+					ops = append(ops, COp{K: "remove", A: ln, Cl: c})
+				} else {
+					ops = append(ops, COp{K: "excl", A: ln, Cl: c})
+				}
 				continue
 			}
 			if p.Log && r.Intn(8) == 0 {
@@ -478,6 +503,14 @@ func execCOp(rig *Rig, cs *clientState, o COp) COut {
 			return fail2(err)
 		}
 		return COut{OK: true, Sum: sum(b)}
+	case "excl":
+		h, err := f.OpenFile(o.A, os.O_WRONLY|os.O_CREATE|os.O_EXCL, 0o644)
+		if err != nil {
+			return fail2(err)
+		}
+		if err := h.Close(); err != nil {
+			return fail2(err)
+		}
 	case "create":
 		h, err := f.Create(o.A)
 		if err != nil {
@@ -973,6 +1006,6 @@ func clip(s string, n int) string {
 func init() {
 	register(&Engine{Name: "conc", Props: []string{"C11"}, Cases: concCases, Run: concRun})
 	propMeta["C11"] = PropMeta{Level: "exploration",
-		Rule:        "per case 2..8 client goroutines run generated programs (3..6 API calls each: create/write/close of private files in shared directories, whole-file reads of shared files, mkdir, mkdirall, rename, remove, removeall on a small set of shared names with SQL wildcard characters, chmod/chown/chtimes, stat, list) against one instance (fresh, or reopened with an index rebuilt from the tape), GOMAXPROCS in {2,4,16}, with PRNG-driven yields/sleeps before every client call and at the drive open/close and drive-read seams; the binary is built with -race (a report kills the worker and is charged to the case); every call is recorded with call/return stamps from one atomic counter at the client boundary, and the history plus the final tree is checked for linearizability with porcupine against the reference model (write-back at close); in half of the histories all clients also append unique records through ONE shared O_APPEND handle - those appends are decided from the file content they leave (every acknowledged record exactly once, never torn or interleaved, nothing foreign, order consistent with real time: a record whose append returned before another was called precedes it) and the content is handed to the model at the close of the handle; then all locks must be free and the final tree must equal a rebuild from the tape; non-trivial = at least 3 overlapping call pairs of different clients and at least as many client switches at the index store as clients; distinct = distinct (interleaving signature, history); clients also call Seek / Stat on the shared handle",
+		Rule:        "per case 2..8 client goroutines run generated programs (3..6 API calls each: create/write/close of private files in shared directories, whole-file reads of shared files, mkdir, mkdirall, rename, remove, removeall on a small set of shared names with SQL wildcard characters, chmod/chown/chtimes, stat, list) against one instance (fresh, or reopened with an index rebuilt from the tape), GOMAXPROCS in {2,4,16}, with PRNG-driven yields/sleeps before every client call and at the drive open/close and drive-read seams; the binary is built with -race (a report kills the worker and is charged to the case); every call is recorded with call/return stamps from one atomic counter at the client boundary, and the history plus the final tree is checked for linearizability with porcupine against the reference model (write-back at close); in half of the histories all clients also append unique records through ONE shared O_APPEND handle - those appends are decided from the file content they leave (every acknowledged record exactly once, never torn or interleaved, nothing foreign, order consistent with real time: a record whose append returned before another was called precedes it) and the content is handed to the model at the close of the handle; then all locks must be free and the final tree must equal a rebuild from the tape; non-trivial = at least 3 overlapping call pairs of different clients and at least as many client switches at the index store as clients; distinct = distinct (interleaving signature, history); clients also call Seek / Stat on the shared handle, and create lock files (OpenFile O_CREATE|O_EXCL + Close on three shared names) and remove them",
 		Assumptions: []string{"files are only read or rewritten through handles by clients for which the sequential model is unambiguous (shared files are never removed or renamed; private files are touched by their owner only): handle-versus-rename/remove shapes are sequential questions", "schedules the perturbed Go scheduler never produces are not explored", "a linearizability check that times out (60 s) is inconclusive"}}
 }
